@@ -249,7 +249,7 @@ func genKeyStream(repo string) (string, error) {
 		}
 		return true
 	})
-	renameIdents(fd.Body, ren)
+	renameIdentsQ(fd.Body, ren)
 	if fd.Body.List, err = inlineHelpers(f, fd.Body.List); err != nil {
 		return "", err
 	}
